@@ -629,10 +629,8 @@ func TestChannelFaults(t *testing.T) {
 			c.Event("reader plan %v", plan)
 			maxRS := uint64(16384)
 			if c.Chance("tightLimit", 1, 6) {
-				maxRS = uint64(c.PickInt("maxRS", s.rs-1, s.rs, s.rs+1))
-				if maxRS == 0 {
-					maxRS = 1
-				}
+				// (a limit of 0 admits no record size at all)
+				maxRS = uint64(c.PickInt("maxRS", s.rs-1, s.rs, s.rs+1, 0))
 			}
 			rr, created, sr := runDecoder(c, s, bad, digest, maxRS, plan, c.Int("caller.retries", 0, 3))
 			if c.Oracle("C15") {
